@@ -140,6 +140,16 @@ def run(ctx):
     cons = pool_error_constructions(ctx, r)
     acquire_error_mapping(ctx, r, cons, 'R06.3')
 
+    # the closed error must survive the timeout wrapper around the blocking acquire
+    tw = r.TIMEOUT_WRAPPER
+    if tw is not None:
+        bad = [(blk.term.line, sorted(blk.term.callee_names())[0]) for blk in tw.blocks if blk.term.kind == 'call' and not blk.cleanup and
+               (blk.term.callee_names() & {'std::result::Result::ok', 'std::result::Result::unwrap_or', 'std::result::Result::unwrap_or_default'}
+                or any(a.kind == 'const' and a.const.get('fn') and strip_generics(a.const['fn']) == 'std::result::Result::ok' for a in blk.term.args))]
+        ctx.ob('R06.3', 'the timeout wrapper passes the Closed error of the acquisition on', not bad, ctx.where(tw),
+               'the wrapper discards the error of the awaited future (%s): a get() waiting with a timeout on a closed pool reports Timeout(Wait) instead of Closed' % bad if bad else '',
+               construct='timeout-wrapper-swallows-closed')
+
     # ---- R06.4 weak back reference -------------------------------------------------------
     obj = r.crate.adt(r.OBJECT)
     strong = [f['name'] for f in obj['variants'][0]['fields'] if 'std::sync::Arc' in f['parts']['adts'] or r.POOL in f['parts']['adts']]
